@@ -2,6 +2,7 @@
   ICG.Driver.Tab — line protocol for the value table and the bound computers (domain `tab`).
 -/
 import ICG.Model.Bounds
+import ICG.Spec.Bounds
 import ICG.Driver.Proto
 namespace ICG.Driver.Tab
 open ICG ICG.Proto
@@ -92,6 +93,16 @@ def handle (s : State) : List String → State × String
     match parseComputer? comp with
     | some c => upd s name c.run
     | none => (s, "bad-op")
+  | ["spec", name, comp] =>
+    -- the mathematical spec (ICG.Spec.Bounds) evaluated on the table's knowledge; exponential, small n only
+    match get? s name, parseComputer? comp with
+    | some t, some c =>
+      let ids := List.range t.rows
+      let (lo, up) : (Nat → Rat) × (Nat → Rat) := match c with
+        | .sam r => (samB t.n t.known t.lo r, samUp t.n t.known t.lo r)
+        | _ => (loSpec t.known t.lo, upSpec t.n t.known t.lo)
+      (s, s!"L={showRats (ids.map lo)} U={showRats (ids.map up)}")
+    | _, _ => (s, "bad-op")
   | ["dump", name] =>
     match get? s name with
     | some t => (s, dump t)
